@@ -30,6 +30,7 @@ type CEnv struct {
 	ref     int // reference event index (-1: none)
 	heap    map[string]*Term
 	old     bool
+	forceFinal bool
 	scratch *State // state receiving facts generated during evaluation
 	depth   int
 }
@@ -75,6 +76,9 @@ func (env *CEnv) EvalBool(n *Node) (t *Term, err error) {
 func (env *CEnv) curHeap() map[string]*Term {
 	if env.old {
 		return map[string]*Term{}
+	}
+	if env.forceFinal {
+		return env.st.UHeap
 	}
 	if env.heap != nil {
 		return env.heap
@@ -548,6 +552,15 @@ func (env *CEnv) call(n *Node) cval {
 		e2.old = true
 		e2.heap = nil
 		return e2.eval(n.Kids[0])
+	case "final":
+		e2 := env.clone()
+		e2.old = false
+		e2.forceFinal = true
+		e2.heap = nil
+		return e2.eval(n.Kids[0])
+	case "fname":
+		v := env.eval(n.Kids[0])
+		return cval{V: StrLit(funcValueName(v.V))}
 	case "len":
 		v := env.eval(n.Kids[0])
 		return cval{V: env.ex.lenOf(env.scratchState(), v.V)}
@@ -596,6 +609,10 @@ func (env *CEnv) call(n *Node) cval {
 	case "min":
 		a, b := env.term(n.Kids[0]), env.term(n.Kids[1])
 		return cval{V: Ite(Le(a, b), a, b)}
+	case "asstring":
+		// the string held by an interface value (x.(string))
+		x := env.term(n.Kids[0])
+		return cval{V: App("unbox!String!string", SStr, x)}
 	case "deref":
 		v := env.eval(n.Kids[0])
 		pt, ok := v.T.Underlying().(*types.Pointer)
@@ -658,10 +675,18 @@ func (env *CEnv) call(n *Node) cval {
 		_, has := env.ex.mapLookup(env.scratchState(), m.V, k.V, mt)
 		return cval{V: has}
 	}
-	// user-record accessor: Name(u)
+	// user-record accessor: Name(u). A variable bound by an event pattern
+	// carries the record heap of that event (the snapshot passed to Save, the
+	// database state at Load, ...); old(..) and final(..) override it.
 	if len(n.Kids) == 1 {
 		if _, ok := env.prog.userFieldSort(name); ok {
-			u := env.term(n.Kids[0])
+			uv := env.eval(n.Kids[0])
+			u := env.toTerm(uv.V)
+			if uv.Heap != nil && !env.old && !env.forceFinal {
+				e2 := env.clone()
+				e2.heap = uv.Heap
+				return cval{V: e2.userField(name, u)}
+			}
 			return cval{V: env.userField(name, u)}
 		}
 	}
@@ -733,4 +758,43 @@ func taintOccurs(t, src *Term) bool {
 		}
 	}
 	return false
+}
+
+// funcValueName names a function value: "(*Lock).BeforeAuth" for bound
+// methods, "Middleware#1" style keys for closures.
+func funcValueName(v Value) string {
+	var fn *ssa.Function
+	switch x := v.(type) {
+	case *ClosureV:
+		fn = x.Fn
+	case *FuncV:
+		fn = x.Fn
+	case *BoundV:
+		fn = x.Fn
+	case *WrappedH:
+		return x.Kind + "(" + funcValueName(x.Inner) + ")"
+	case *IfaceV:
+		return funcValueName(x.V)
+	}
+	if fn == nil {
+		return "?" + showValue(v)
+	}
+	name := fn.Name()
+	name = strings.TrimSuffix(name, "$bound")
+	if fn.Signature.Recv() == nil && strings.HasSuffix(fn.Name(), "$bound") && len(fn.FreeVars) == 1 {
+		// bound method wrapper: free variable is the receiver
+		t := fn.FreeVars[0].Type()
+		ptr := ""
+		if pt, ok := t.(*types.Pointer); ok {
+			ptr = "*"
+			t = pt.Elem()
+		}
+		if n, ok := t.(*types.Named); ok {
+			return "(" + ptr + n.Obj().Name() + ")." + name
+		}
+	}
+	if fn.Parent() != nil {
+		return funcValueName(&FuncV{Fn: fn.Parent()}) + "#" + fn.Name()
+	}
+	return name
 }
